@@ -359,6 +359,35 @@ def gen_layout_scenario(r, name):
     return lines
 
 
+def gen_stale_scenario(r, name):
+    """bytes left behind by a longer, truncated version of an element must never show up again: the last element
+    of the file is truncated, the file (usually) closed and reopened, the element extended through an extendable
+    handle after seeking past its end (gaps 1..700 bytes: the zero fill works in pieces), read back, reopened, read"""
+    lines = ["history " + name, "open 0 %d %d" % (r.choice([4, 5, 16]), r.choice([0, 1, 1]))]
+    keys = []
+    for i in range(r.randrange(1, 4)):
+        k = (TAGS[i % 3], i + 1)
+        keys.append(k)
+        lines.append("putelement 0 %d %d %s" % (k[0], k[1], hexs([0xA0 + i] * r.choice([6, 20, 90, 700]))))
+    last = keys[-1]
+    keep = r.choice([0, 1, 2, 5])
+    lines += ["startaccess 0 0 %d %d 3" % last, "trunc 0 %d" % keep, "end 0"]
+    if r.random() < 0.75:
+        lines.append("reopen 0 %d %d" % (r.choice([4, 16]), r.choice([0, 1])))
+    lines.append("startaccess 0 0 %d %d 19" % last)
+    pos = keep
+    for _ in range(r.randrange(1, 4)):
+        gap = r.choice([0, 1, 3, 17, 511, 512, 513, 700])
+        pos += gap
+        n = r.choice([1, 2, 9])
+        lines += ["seek 0 %d 0" % pos, "write 0 " + hexs(rbytes(r, n))]
+        pos += n
+    lines += ["seek 0 0 0", "read 0 0", "end 0", "reopen 0 16 1"]
+    for k in keys:
+        lines.append("getelement 0 %d %d" % k)
+    return lines
+
+
 def gen_lb_history(r, name):
     """one linked-block element, several handles sharing it: the R-vs-M correspondence (exact, incl. the
     allocation flags of every block table)"""
@@ -739,7 +768,8 @@ def run(ctx):
     hists = corpus + [gen_history(r, "g%d" % i) for i in range(nh)] + \
         [gen_history(r, "m%d" % i, malformed=True) for i in range(nh // 5)] + \
         [gen_ext_scenario(r, "x%d" % i) for i in range(nh // 6)] + \
-        [gen_layout_scenario(r, "y%d" % i) for i in range(nh // 4)]
+        [gen_layout_scenario(r, "y%d" % i) for i in range(nh // 4)] + \
+        [gen_stale_scenario(r, "z%d" % i) for i in range(nh // 10)]
     rc, R, S, flat = run_histories(ctx, hists, "main")
     opmix, fails_r = {}, 0
     pos = 0
